@@ -37,6 +37,10 @@ def exc_code(e):
 
 
 # ---------------------------------------------------------------- snapshots and Coq literals
+def flag(x):
+    return bool(x) if isinstance(x, (bool, np.bool_)) else x
+
+
 def snap(c):
     """Everything observable about a CVR object, as plain data (taken before and after calls)."""
     votes = c.votes
@@ -45,7 +49,7 @@ def snap(c):
     return {"id": c.id, "contests": list(votes.keys()),
             "content": None if default else repr((sorted((str(k), repr(v)) for k, v in votes.items()), c.card_in_batch,
                                                   c.sample_num, c.p, c.sampled)),
-            "phantom": c.phantom, "tally_pool": c.tally_pool, "pool": c.pool}
+            "phantom": flag(c.phantom), "tally_pool": c.tally_pool, "pool": flag(c.pool)}
 
 
 class Enc:
@@ -77,6 +81,23 @@ class Enc:
                 + C.zlit(self.pool(s["tally_pool"])) + " " + C.blit(s["pool"]) + ")")
 
 
+# ---------------------------------------------------------------- representations a caller legally holds
+def rep_kind(rng):
+    """one representation per world for integers / flags / floats: Python or numpy (e.g. from a pandas / numpy sum)"""
+    return {"int": rng.choice([int, int, np.int64, np.int32]), "bool": rng.choice([bool, bool, np.bool_]),
+            "float": rng.choice([float, float, np.float64])} if rng is not None else {"int": int, "bool": bool, "float": float}
+
+
+def rep(kind, which, x):
+    if x is None or isinstance(x, str):
+        return x
+    return kind[which](x)
+
+
+def pyint(x):
+    return None if x is None else int(x)
+
+
 def res_lit(exc, ok_lit):
     return f"(Err {exc})" if exc else f"(Ok {ok_lit})"
 
@@ -102,8 +123,8 @@ def call_make_phantoms(audit, contests, cvr_list, call, asked=None):
     CVR = lib().CVR
     before = [snap(c) for c in cvr_list]
     # first call on freshly built contests: the bounds the caller asked for; later calls: the objects' current state
-    cons_before = list(asked) if asked is not None else [(con.id, con.cards) for con in contests.values()]
-    strata = [(st.use_style, st.max_cards) for st in audit.strata.values()]
+    cons_before = list(asked) if asked is not None else [(con.id, pyint(con.cards)) for con in contests.values()]
+    strata = [(bool(st.use_style), pyint(st.max_cards)) for st in audit.strata.values()]
     kw = {}
     prefix, tp, pool = call.get("prefix", "phantom-"), call.get("tally_pool"), call.get("pool", False)
     if "prefix" in call:
@@ -126,7 +147,8 @@ def call_make_phantoms(audit, contests, cvr_list, call, asked=None):
     except Exception as e:  # noqa
         case["exc"] = exc_code(e)
         case["exc_text"] = f"{type(e).__name__}: {e}"
-    case["cons_after"] = [(con.id, con.cards, getattr(con, "cvrs", None)) for con in contests.values()]
+    case["cons_after"] = [(con.id, pyint(con.cards), pyint(getattr(con, "cvrs", None))) for con in contests.values()]
+    case["representation"] = getattr(audit, "_rep", None)
     case["in_after"] = [snap(c) for c in cvr_list]
     return case
 
@@ -180,18 +202,20 @@ def gen_cvr_specs(rng, names, n, idstyle):
     return specs
 
 
-def make_objects(strata, con_specs, cvr_specs, route="from_dict"):
+def make_objects(strata, con_specs, cvr_specs, route="from_dict", rng=None):
     """Build the audit, the contests and the CVRs.  The contests are built the way `route` says (Contest.from_dict,
     Contest.from_dict_of_dicts, or the constructor); also returns what the caller ASKED for, [(id, card bound)], which is
     what the first call of make_phantoms is checked against (construction is part of the path to make_phantoms;
     an omitted bound is the constructor's documented default 0)."""
     A = lib()
-    audit = A.Audit.from_dict({"strata": {f"s{i}": {"use_style": us, "max_cards": mc} for i, (us, mc) in enumerate(strata)}})
+    kind = rep_kind(rng)
+    audit = A.Audit.from_dict({"strata": {f"s{i}": {"use_style": rep(kind, "bool", us), "max_cards": rep(kind, "int", mc)}
+                                          for i, (us, mc) in enumerate(strata)}})
     dicts = {}
     for key, cid, cards in con_specs:
-        d = {"id": cid, "name": str(cid), "candidates": ["Alice", "Bob"], "winner": ["Alice"]}
+        d = {"id": cid, "name": str(cid), "candidates": ["Alice", "Bob"], "winner": ["Alice"], "n_winners": rep(kind, "int", 1)}
         if cards != "default":
-            d["cards"] = cards
+            d["cards"] = rep(kind, "int", cards)       # the bound in the representation the caller holds (int, np.int64, np.int32)
         dicts[key] = d
     if route == "dod" and all(key == cid for key, cid, _ in con_specs) and len(dicts) == len(con_specs):
         contests = A.Contest.from_dict_of_dicts(copy.deepcopy(dicts))       # sets id = key
@@ -199,8 +223,12 @@ def make_objects(strata, con_specs, cvr_specs, route="from_dict"):
         contests = {key: A.Contest(**d) for key, d in dicts.items()}
     else:
         contests = {key: A.Contest.from_dict(dict(d)) for key, d in dicts.items()}
-    asked = [(dicts[key]["id"], dicts[key].get("cards", 0)) for key in contests]
-    return audit, contests, build_cvrs(cvr_specs), asked
+    asked = [(dicts[key]["id"], pyint(dicts[key].get("cards", 0))) for key in contests]
+    cvr_list = build_cvrs(cvr_specs)
+    for c in cvr_list:                                  # flags in the world's representation
+        c.phantom, c.pool = rep(kind, "bool", c.phantom), rep(kind, "bool", c.pool)
+    audit._rep = {k: v.__name__ for k, v in kind.items()}
+    return audit, contests, cvr_list, asked
 
 
 def count_listing(specs, cid):
@@ -374,7 +402,7 @@ def run_make_phantoms(ctx, res, keep_for_glue):
     cases = []
     for strata, cons, cvrs, calls in gen_mp_scenarios(ctx):
         route = ctx.rng.choice(["from_dict", "from_dict", "dod", "ctor"])
-        audit, contests, cvr_list, asked = make_objects(strata, cons, cvrs, route)
+        audit, contests, cvr_list, asked = make_objects(strata, cons, cvrs, route, ctx.rng)
         for ncall, call in enumerate(calls):
             if call.get("flip_style"):
                 for st in audit.strata.values():
@@ -545,6 +573,9 @@ BALLOTS = {"plurality": [None, {}, {"Alice": 1}, {"Bob": True}, {"Alice": 1, "Bo
                    {"Bob": 1}]}
 
 
+KIND = {"int": int, "bool": bool, "float": float}      # representation of flags / floats in the current overstatement world
+
+
 def make_record(cid, ballot, phantom, how, ident, pool=None):
     """how: 'ctor' CVR(id, votes=..., phantom=...), 'from_dict' (as the tests do), 'format' CVR(id, votes={}, phantom=True),
     'default' CVR(id=..., phantom=...) with the constructor's default votes."""
@@ -567,6 +598,8 @@ def make_record(cid, ballot, phantom, how, ident, pool=None):
         r = CVR(id=ident, votes=votes, phantom=phantom)
     if pool and how != "from_dict":
         r.tally_pool, r.pool = pool
+    if how != "format":                                 # format-made phantom MVRs stay exactly as the format modules make them
+        r.phantom, r.pool = rep(KIND, "bool", r.phantom), rep(KIND, "bool", r.pool)
     return r
 
 
@@ -673,8 +706,10 @@ def run_overstatement(ctx, res, mvr_pairs):
 
     configs = [("plurality", None), ("supermajority", 0.5), ("supermajority", 2 / 3), ("supermajority", 0.625), ("irv", None)]
     margins = [0.0, 0.125, 0.5, 1.0, -0.25, 1.25, 0.0625]
+    global KIND
     for kind, share in configs:
         cid = "AvB"
+        KIND = rep_kind(rng)
         con, asns = build_assertions(kind, cid, share)
         ballots = BALLOTS[kind]
         for asn in asns:
@@ -687,14 +722,14 @@ def run_overstatement(ctx, res, mvr_pairs):
             for (mb, mp_, mh), (cb, cp_, ch), us in itertools.product(mvr_kinds, cvr_kinds, (True, False)):
                 if ctx.quick and rng.random() < 0.45 and not (mp_ or cp_):
                     continue
-                asn.margin = rng.choice([m for m in margins if m < 2 * u])
+                asn.margin = rep(KIND, "float", rng.choice([m for m in margins if m < 2 * u]))
                 asn.assorter.tally_pool_means = None
                 one(asn, cid, make_record(cid, mb, mp_, mh, "m1"), make_record(cid, cb, cp_, ch, "phantom-3" if cp_ else "c1"), us, kind,
                     "unpooled")
             # pooled CVRs (ONEAudit): means from set_tally_pool_means on a CVR list, or set by hand (incl. NaN, missing label)
             for _ in range(ctx.n(40, 600)):
                 us = rng.random() < 0.5
-                asn.margin = rng.choice([m for m in margins if m < 2 * u])
+                asn.margin = rep(KIND, "float", rng.choice([m for m in margins if m < 2 * u]))
                 pool_cvrs = [make_record(cid, rng.choice(ballots), False, "ctor", f"q{i}", pool=(rng.choice(["p1", "p2"]), rng.random() < 0.8))
                              for i in range(rng.randint(0, 5))]
                 r = rng.random()
@@ -705,7 +740,7 @@ def run_overstatement(ctx, res, mvr_pairs):
                     except Exception:  # noqa
                         asn.assorter.tally_pool_means = {"p1": 0.5}
                 elif r < 0.8:
-                    asn.assorter.tally_pool_means = {k: rng.choice([0.0, 0.25, 0.5, 0.75, 1.0, float("nan")])
+                    asn.assorter.tally_pool_means = {k: rep(KIND, "float", rng.choice([0.0, 0.25, 0.5, 0.75, 1.0, float("nan")]))
                                                      for k in rng.sample(["p1", "p2", None], rng.randint(0, 3))}
                 else:
                     asn.assorter.tally_pool_means = None
@@ -718,7 +753,7 @@ def run_overstatement(ctx, res, mvr_pairs):
             # phantom MVRs exactly as the format modules returned them, against the phantom CVR of the same card
             for m, pc in mvr_pairs[:ctx.n(25, 200)]:
                 for us in (True, False):
-                    asn.margin = rng.choice([mm for mm in margins if mm < 2 * u])
+                    asn.margin = rep(KIND, "float", rng.choice([mm for mm in margins if mm < 2 * u]))
                     cv = pc if (pc is not None and rng.random() < 0.5) else make_record(cid, rng.choice(ballots), rng.random() < 0.3, "ctor", "c3")
                     one(asn, cid, m, cv, us, kind, "format-made-mvr")
             # the same object on both sides
@@ -728,6 +763,7 @@ def run_overstatement(ctx, res, mvr_pairs):
     # assorters whose upper bound is well above 1 (super-majority with a small share to win: u = 1/(2 share) = 3.33, 1.67, 1.25)
     for share in (0.15, 0.3, 0.4):
         cid = "AvB"
+        KIND = rep_kind(rng)
         con, asns = build_assertions("supermajority", cid, share)
         asn = asns[0]
         u = float(asn.assorter.upper_bound)
@@ -735,7 +771,7 @@ def run_overstatement(ctx, res, mvr_pairs):
         for cb, cp_, us in itertools.product(ballots, (False, True), (True, False)):
             for mb, mp_, mh in [(None, True, "format"), ({}, True, "from_dict"), (rng.choice(ballots), True, "ctor"),
                                 (rng.choice(ballots), False, "ctor"), ({"Bob": 1}, False, "ctor"), ({"Alice": 1}, False, "ctor")]:
-                asn.margin = rng.choice([0.0, 0.125, 0.5, 1.0, -0.25, 1.25, 2.0, 3.0][:5 + int(u)])
+                asn.margin = rep(KIND, "float", rng.choice([0.0, 0.125, 0.5, 1.0, -0.25, 1.25, 2.0, 3.0][:5 + int(u)]))
                 asn.assorter.tally_pool_means = None
                 one(asn, cid, make_record(cid, mb, mp_, mh, "m4"), make_record(cid, cb, cp_, "ctor", "phantom-4" if cp_ else "c4"), us,
                     "supermajority", f"large-u share={share}")
@@ -774,7 +810,7 @@ def run_large_make_phantoms(ctx, res):
         mc = n + rng.randint(0, 9)
         cons = [(k, k, None if (rng.random() < 0.2) else count_listing(cvrs, k) + rng.randint(0, 7)) for k in names]
         rng.shuffle(cons)
-        audit, contests, cvr_list, asked = make_objects([(us, mc)], cons, cvrs, rng.choice(["from_dict", "dod", "ctor"]))
+        audit, contests, cvr_list, asked = make_objects([(us, mc)], cons, cvrs, rng.choice(["from_dict", "dod", "ctor"]), rng)
         c = call_make_phantoms(audit, contests, cvr_list, {"prefix": "phantom-1-"}, asked)
         c.pop("out_objs", None)
         res.oracle_runs += 1
